@@ -16,6 +16,10 @@ from concurrent.futures import ThreadPoolExecutor
 
 VERIF = os.path.dirname(os.path.dirname(os.path.abspath(__file__)))
 REPO = "/repo"
+# the sweep takes an hour or more: it runs a frozen copy of the checker (made by --snapshot), so that rules edited meanwhile
+# neither crash it nor change what is being measured
+SNAP = os.path.join(VERIF, ".cache", "snap")
+CHECK = os.path.join(SNAP, "check") if os.path.exists(os.path.join(SNAP, "check")) else os.path.join(VERIF, "check")
 FILES = [
     "teos/src/watcher.rs", "teos/src/responder.rs", "teos/src/gatekeeper.rs", "teos/src/carrier.rs", "teos/src/chain_monitor.rs",
     "teos/src/tx_index.rs", "teos/src/dbm.rs", "teos/src/extended_appointment.rs", "teos/src/main.rs", "teos/src/config.rs",
@@ -149,10 +153,12 @@ def run_mutant(job):
     with open(p, "w") as fh:
         fh.write(t[:a] + new + t[b:])
     env = dict(os.environ, TEOS_REPO=repo, VERIF_FACTS_CACHE=os.path.join(sc, "facts"), VERIF_OUT_DIR=os.path.join(sc, "out"))
-    r = subprocess.run([os.path.join(VERIF, "check"), "all", "--tier", "quick"], cwd=VERIF, env=env, stdout=subprocess.PIPE, stderr=subprocess.STDOUT, text=True)
+    r = subprocess.run([CHECK, "all", "--tier", "quick"], cwd=os.path.dirname(CHECK), env=env, stdout=subprocess.PIPE, stderr=subprocess.STDOUT, text=True)
     res = {"file": rel, "line": lineno, "src": line, "old": old, "new": new}
     if "fact extraction failed" in r.stdout or "does not type-check" in r.stdout:
         res["verdict"] = "NOCOMPILE"
+    elif "internal-error" in r.stdout or "Traceback (most recent call last)" in r.stdout or "violations=" not in r.stdout:
+        res["verdict"] = "ERROR"
     else:
         hits = sorted({l.strip()[:150] for l in r.stdout.splitlines() if l.startswith("  [")})
         res["verdict"] = "DETECTED" if hits else "SILENT"
@@ -163,6 +169,11 @@ def run_mutant(job):
 
 def main():
     args = sys.argv[1:]
+    if "--snapshot" in args:
+        os.makedirs(SNAP, exist_ok=True)
+        subprocess.check_call(["rsync", "-a", "--delete", "--exclude", ".cache", "--exclude", ".git", "--exclude", "seeded", "--exclude", "benign", "--exclude", "selftest", "--exclude", "evidence", "--exclude", "findings", VERIF + "/", SNAP + "/"])
+        print("snapshot of the checker at", SNAP)
+        return
     ops = args[args.index("--ops") + 1] if "--ops" in args else "rel"
     files = args[args.index("--files") + 1].split(",") if "--files" in args else FILES
     out = args[args.index("--out") + 1] if "--out" in args else os.path.join(VERIF, ".cache", "mutsweep.jsonl")
@@ -184,7 +195,8 @@ def main():
     if os.path.exists(out):
         for l in open(out):
             d = json.loads(l)
-            done.add((d["file"], d["line"], d["old"], d["new"], d["src"]))
+            if d["verdict"] != "ERROR" and not ("--redo-silent" in args and d["verdict"] == "SILENT"):
+                done.add((d["file"], d["line"], d["old"], d["new"], d["src"]))
     jobs = [j for j in jobs if (j[0], j[5], j[3], j[4], j[6]) not in done]
     print(len(jobs), "mutants to run", flush=True)
     with ThreadPoolExecutor(max_workers=int(os.environ.get("VERIF_JOBS", "4"))) as ex, open(out, "a") as fh:
